@@ -22,7 +22,9 @@ EXPLANATION = (
     "the frame made from that very array), together with dimension letters, names, items, the process list, each flow's source "
     "and target and each stock's process; one CSV file per flow and per exported stock quantity with the sanitised name; the "
     "pickle holds exactly the dictionary; nothing in the system is written; to_dfs yields one table per non-empty kind with one "
-    "row per definition. That frames re-import to identical arrays is the round-trip statement of C11.")
+    "row per definition. That frames re-import to identical arrays is the round-trip statement of C11."
+    " Stocks whose names differ by a trailing word that export code also uses as a file-name suffix ('in use', 'in use stock') and a dimensionless flow are part of the systems."
+)
 TECHNIQUE = "static analysis: abstract interpretation of the export code over enumerated systems with recording models of files / pickle / to_csv; coverage and provenance of every emitted entry"
 
 MOD = "export/data_writer.py"
